@@ -1,6 +1,8 @@
 //! C30 — user-chosen resource names through the public API, written and re-read by the library.
-//! Entry points exercised: Page::add_image + Page::draw_image (no validation on the pinned tree)
-//! and Page::add_form_xobject (validated by validate_pdf_resource_name).
+//! Entry points exercised: Page::add_image + Page::draw_image (no validation; names are #XX-escaped
+//! at emission since fix_name_escape) and Page::add_form_xobject (validated by validate_pdf_resource_name).
+//! Names are compared as Rust Strings: the key of the re-read resource dictionary and the operand of
+//! the re-parsed `Do` must both EQUAL the name given.
 use crate::util::*;
 use oxidize_pdf::graphics::{FormXObject, Image};
 use oxidize_pdf::parser::content::{ContentOperation, ContentParser};
@@ -62,8 +64,7 @@ fn run_entry(entry: &str, name: &str) -> Result<(u8, String), String> {
             other => return (2, format!("XObject: {:?}", other.map(|x| x.map(|_| ())))),
         };
         let keys: Vec<String> = xo.0.keys().map(|k| k.0.clone()).collect();
-        let as_latin1: String = name.bytes().map(|b| b as char).collect();
-        if !(keys.len() == 1 && keys[0] == as_latin1) {
+        if !(keys.len() == 1 && keys[0] == name) {
             return (2, format!("keys {:?}", keys));
         }
         if drawn {
@@ -79,8 +80,7 @@ fn run_entry(entry: &str, name: &str) -> Result<(u8, String), String> {
                 }
             }
             let dos: Vec<String> = ops.iter().filter_map(|o| if let ContentOperation::PaintXObject(n) = o { Some(n.clone()) } else { None }).collect();
-            // the content tokenizer may decode bytes as UTF-8 or Latin-1: accept either view of the same bytes
-            if !(dos.len() == 1 && (dos[0] == name || dos[0] == as_latin1)) {
+            if !(dos.len() == 1 && dos[0] == name) {
                 return (2, format!("Do operands {:?}", dos));
             }
         }
@@ -112,7 +112,8 @@ pub fn run(ctx: &Ctx) {
             emit(&mut out, c["entry"].as_str().unwrap(), &n, "replay");
         }
     } else {
-        let fixed = ["Img1", "My Image", "A/B", "A#20", "A#", "é", "", "a(b", "a)b", "x%y", "R", "Im{1}", "tab\there", "nl\nx", "nul\0x", "日本", "A.B-C_D", "<<", "[x]", "F+1"];
+        let fixed = ["Img1", "My Image", "A/B", "A#20", "A#", "é", "", "a(b", "a)b", "x%y", "R", "Im{1}", "tab\there", "nl\nx", "nul\0x", "日本", "A.B-C_D", "<<", "[x]", "F+1",
+                     "#", "##", "#2", "A#2", "a b c", " ", "/", "%", "x\ry", "x\u{c}y", "\u{7f}", "\u{1}\u{1f}", "A#ZZ", "A#+5", "trailing ", " leading", "a#20b#", "()<>[]{}/%#", "Fm0+x", "\u{80}", "a\u{ff}b", "😀"];
         for n in fixed {
             emit(&mut out, "image", n, "fixed");
             emit(&mut out, "form", n, "fixed");
@@ -206,9 +207,8 @@ fn run_pages_doc(pages: &[Vec<Res>]) -> Result<Result<Vec<Vec<Option<Vec<u8>>>>,
             }
             let mut found = vec![];
             for r in rs {
-                let as_latin1: String = r.name.bytes().map(|b| b as char).collect();
-                let drawn_ok = r.kind == "form" || dos.iter().any(|d| *d == r.name || *d == as_latin1);
-                let f = xo.as_ref().and_then(|d| d.get(&as_latin1)).and_then(|o| pd.resolve(o).ok()).and_then(|o| match o {
+                let drawn_ok = r.kind == "form" || dos.iter().any(|d| *d == r.name);
+                let f = xo.as_ref().and_then(|d| d.get(&r.name)).and_then(|o| pd.resolve(o).ok()).and_then(|o| match o {
                     PdfObject::Stream(st) => st.decode(&oxidize_pdf::parser::ParseOptions::default()).ok(),
                     _ => None,
                 });
@@ -252,10 +252,19 @@ fn run_pages(ctx: &Ctx) {
     }
     let mut r = Rng::new(ctx.seed ^ 0x9A6E5);
     let reg_name = |r: &mut Rng| -> String {
-        // regular, validator-accepted names only: the known finding C30-name-raw must not be involved
+        // regular, validator-accepted ASCII names (form XObjects are gated; non-ASCII is the known finding C30-name-nonascii)
         loop {
             let n = gen::gen_regular_name(r);
             if !n.is_empty() && n.bytes().all(|b| (0x21..0x7f).contains(&b) && !b"/<>[](){}%#".contains(&b)) {
+                return n;
+            }
+        }
+    };
+    // any non-empty ASCII name, with white space / delimiters / '#' / controls (images are not gated; escaped at emission)
+    let irr_name = |r: &mut Rng| -> String {
+        loop {
+            let n: String = gen::gen_irregular_name(r).chars().filter(|c| c.is_ascii()).collect();
+            if !n.is_empty() {
                 return n;
             }
         }
@@ -272,9 +281,10 @@ fn run_pages(ctx: &Ctx) {
     let n = if ctx.thorough() { 600 } else { 120 };
     for i in 0..n {
         let np = r.range(2, 4) as usize;
-        let name = if i % 5 == 0 { "Im1".to_string() } else { reg_name(&mut r) };
+        let images_only = matches!(i % 6, 0 | 1 | 2 | 4);
+        let name = if i % 5 == 0 { "Im1".to_string() } else if images_only && r.chance(1, 2) { irr_name(&mut r) } else { reg_name(&mut r) };
         let name2 = loop {
-            let x = reg_name(&mut r);
+            let x = if images_only && r.chance(1, 2) { irr_name(&mut r) } else { reg_name(&mut r) };
             if x != name {
                 break x;
             }
